@@ -630,3 +630,130 @@ def c16_r4(ctx: Ctx, rule):
 
 RULES.setdefault("C16", []).append(Rule("C16.R5", "the file a path destination names receives the complete text: the temporary file is written and closed before it is moved (shared with C17.R2)", 2, c17_r2, "F-PATH",
                                         "serialize(destination=path) cannot move a file whose buffered tail has not been flushed"))
+
+
+# ===================================================================================== C17.R4 failures propagate / C17.R5 = C16.R7 whole buffer
+def serializer_write_closure(ctx: Ctx):
+    out = []
+    for fmt, cls in sorted(registry_classes(ctx).items()):
+        q = ctx.p.lookup_method(cls, "serialize")
+        if q is None:
+            raise AnalysisError("serializer %s has no serialize()" % cls)
+        for q2 in ctx.helper_closure(q, 2):
+            if q2 not in out:
+                out.append(q2)
+    return out
+
+
+def _handler_swallows(h: ast.ExceptHandler):
+    """The handler neither re-raises nor raises another exception on every path (syntactic: no Raise at its top level or in all branches)."""
+    def always_raises(stmts):
+        for s in stmts:
+            if isinstance(s, ast.Raise):
+                return True
+            if isinstance(s, ast.If) and always_raises(s.body) and s.orelse and always_raises(s.orelse):
+                return True
+        return False
+
+    return not always_raises(h.body)
+
+
+def c17_r4(ctx: Ctx, rule):
+    res = RuleResult()
+    # (a) context managers of the package never suppress exceptions
+    n_exit = 0
+    for q, fi in ctx.p.functions.items():
+        if fi.name != "__exit__" or fi.module.startswith("scripts."):
+            continue
+        n_exit += 1
+        rets = [n for n in walk_function(fi.node) if isinstance(n, ast.Return) and n.value is not None and not (isinstance(n.value, ast.Constant) and n.value.value in (None, False))]
+        res.ob("%s: returns only None/False (cannot suppress an exception): %s" % (short(q), not rets))
+        for r in rets:
+            res.fail(rule.id, "exit-suppresses::%s" % q, ctx.loc(q, r), "%s returns `%s`: a truthy value makes the `with` statement swallow the exception raised in its body" % (short(q), norm(r.value)[:50]),
+                     "a serializer failing half-way returns normally, and serialize(path) moves the truncated temporary file over the destination")
+    res.ob("context managers (__exit__) defined in the package: %d" % n_exit, nontrivial=False)
+    # (b) no handler on a serializer's write path swallows a failure of the write
+    cl = serializer_write_closure(ctx)
+    res.ob("functions on the four serializers' write paths: %d" % len(cl))
+    n_try = 0
+    for q in cl:
+        fi = ctx.fn(q)
+        for t in walk_function(fi.node):
+            if isinstance(t, ast.With):
+                for it in t.items:
+                    if isinstance(it.context_expr, ast.Call) and (dotted(it.context_expr.func) or "").endswith("suppress"):
+                        res.fail(rule.id, "suppress::%s" % q, ctx.loc(q, t), "%s runs part of the write under contextlib.suppress" % short(q), "a failed write goes unnoticed; the commit follows")
+            if not isinstance(t, ast.Try):
+                continue
+            writes = [c for b in t.body for c in ast.walk(b) if isinstance(c, ast.Call) and call_name(c) in ("write", "dump", "dumps", "serialize", "tostring", "writelines", "flush", "close")]
+            if not writes:
+                continue
+            n_try += 1
+            for h in t.handlers:
+                caught = norm(h.type) if h.type is not None else "<bare>"
+                swallow = _handler_swallows(h)
+                res.ob("%s: handler `except %s` around %s re-raises: %s" % (short(q), caught, norm(writes[0])[:40], not swallow))
+                if swallow:
+                    res.fail(rule.id, "write-failure-swallowed::%s::%s" % (q, caught), ctx.loc(q, h), "%s catches %s around `%s` and carries on" % (short(q), caught, norm(writes[0])[:40]),
+                             "a write error (disk full) is absorbed by the serializer; serialize(path) then replaces the destination with the partial file")
+    res.ob("try statements around writes on those paths: %d" % n_try, nontrivial=False)
+    return res
+
+
+def c17_r5(ctx: Ctx, rule):
+    """A length (or index bound) taken from a buffer is not used after the buffer variable has been rebound: `size = len(s)` followed by
+    `s = s.encode(...)` and a loop over range(size) writes a prefix of the bytes only."""
+    res = RuleResult()
+    cl = serializer_write_closure(ctx) + [M + ".ProvDocument.serialize"]
+    n = 0
+    for q in cl:
+        fi = ctx.fn(q)
+        g = None
+        for a in walk_function(fi.node):
+            if not (isinstance(a, ast.Assign) and len(a.targets) == 1 and isinstance(a.targets[0], ast.Name) and isinstance(a.value, ast.Call) and call_name(a.value) == "len"
+                    and a.value.args and isinstance(a.value.args[0], ast.Name)):
+                continue
+            N, V = a.targets[0].id, a.value.args[0].id
+            n += 1
+            g = g or get_cfg(ctx, q)
+            an = node_of(g, a)
+            rebinds = [x for x in walk_function(fi.node) if isinstance(x, (ast.Assign, ast.AugAssign)) and x is not a
+                       and any(isinstance(t, ast.Name) and t.id == V for t in (x.targets if isinstance(x, ast.Assign) else [x.target]))]
+            stale = None
+            for rb in rebinds:
+                for rn in g.node_containing(rb):
+                    if not (rn is an or g.exists_path(an, rn)):
+                        continue
+                    # a use of N reachable from the rebinding without passing a fresh `N = ...`
+                    def redefines(m):
+                        return m.stmt is not None and isinstance(m.stmt, ast.Assign) and any(isinstance(t, ast.Name) and t.id == N for t in m.stmt.targets)
+                    for un in g.nodes:
+                        if un.stmt is None or un is rn:
+                            continue
+                        uses = any(isinstance(x, ast.Name) and x.id == N and isinstance(x.ctx, ast.Load) for e in cfgmod.header_exprs(un.stmt) for x in ast.walk(e))
+                        if uses and g.exists_path(rn, un, avoid=redefines):
+                            stale = (rb, un)
+            res.ob("%s: `%s` stays the length of `%s` wherever it is used: %s" % (short(q), N, V, stale is None))
+            if stale:
+                rb, un = stale
+                res.fail(rule.id, "stale-length::%s::%s" % (q, N), ctx.loc(q, un.stmt),
+                         "%s uses `%s = len(%s)` at line %d after `%s` (line %d) rebound %s: the bound no longer measures the buffer" % (short(q), N, V, getattr(un.stmt, "lineno", 0), norm(rb)[:50], rb.lineno, V),
+                         "a large document with non-ASCII text written to a binary stream or a path: only the first len(text) bytes of the longer UTF-8 encoding are written")
+    res.ob("lengths taken of buffers on the write paths: %d" % n, nontrivial=False)
+    # slices of the buffer handed to write(): the whole buffer must go out - reported as an observation when chunking is present
+    for q in cl:
+        for c in calls_in(ctx.fn(q).node):
+            if call_name(c) == "write" and c.args and isinstance(c.args[0], ast.Subscript) and isinstance(c.args[0].slice, ast.Slice):
+                res.ob("%s writes a slice (%s): chunked output" % (short(q), norm(c.args[0])[:50]))
+    res.ob("functions examined: %d" % len(cl))
+    return res
+
+
+RULES.setdefault("C17", []).append(Rule("C17.R4", "a failure inside a serializer reaches serialize(): no __exit__ returns a truthy value, no handler or suppress() absorbs a failed write", 2, c17_r4, "F-PATH",
+                                        "the all-or-nothing commit of C17.R2 sees every failure"))
+RULES.setdefault("C17", []).append(Rule("C17.R5", "the whole buffer is written: a length taken before the buffer is re-encoded is not used afterwards", 1, c17_r5, "F-PATH",
+                                        "the file holds the complete serialisation"))
+RULES.setdefault("C16", []).append(Rule("C16.R7", "the whole buffer is written to every destination kind (shared with C17.R5)", 1, c17_r5, "F-PATH",
+                                        "binary targets receive the complete UTF-8 text"))
+RULES.setdefault("C16", []).append(Rule("C16.R8", "serializer failures propagate (shared with C17.R4)", 2, c17_r4, "F-PATH",
+                                        "a destination never silently holds a partial text"))
